@@ -27,7 +27,7 @@ fn merged(pid: &str, tier: &str, seed: u64, parts: Vec<Report>) -> Report {
 
 // =================================================================== C08
 
-const BUF_SIZES: [usize; 9] = [1, 2, 3, 7, 64, 1000, 4096, 8192, 65536];
+const BUF_SIZES: [usize; 10] = [1, 2, 3, 7, 64, 1000, 4096, 8192, 65536, 0];
 
 fn payload_plan(rng: &mut Rng, n: usize, for_blocking_bridge: bool) -> Plan {
     let mut steps = vec![];
@@ -81,7 +81,10 @@ pub(crate) fn c08_case(rep: &mut Report, seed: u64, idx: u64, tier: &str) {
             rep.count("bridged_runs", 1);
         }
         let plan = payload_plan(&mut rng, payload.len(), kind == 2 && !consume_async);
-        let sizes: Vec<usize> = (0..rng.range(1, 6)).map(|_| *rng.pick(&BUF_SIZES)).collect();
+        let mut sizes: Vec<usize> = (0..rng.range(1, 6)).map(|_| *rng.pick(&BUF_SIZES)).collect();
+        if sizes.iter().all(|&k| k == 0) {
+            sizes.push(512);
+        }
         let label = format!("case {idx}: {} ; payload {}B via {} ; consumed {} with buffer sizes {sizes:?} ; plan steps={} fallback={:?}", model_summary(&m), payload.len(), ["none", "IppPayload::new(Read)", "IppPayload::new_async(AsyncRead)"][kind as usize], if consume_async { "into_async_read" } else { "into_read" }, plan.steps.len(), plan.fallback);
         let mut r = mirror::to_ipp(&m);
         let (src, shared) = Scripted::new(payload.clone(), plan);
@@ -116,6 +119,13 @@ pub(crate) fn c08_case(rep: &mut Report, seed: u64, idx: u64, tier: &str) {
                         loop {
                             let k = sz[i % sz.len()];
                             i += 1;
+                            if k == 0 {
+                                // a zero-length read must return 0 without disturbing the stream
+                                match rd.read(&mut buf[..0]).await {
+                                    Ok(0) => continue,
+                                    other => return Err(format!("zero-length read returned {other:?} at offset {}", out.len())),
+                                }
+                            }
                             match rd.read(&mut buf[..k]).await {
                                 Ok(0) => {
                                     zeros += 1;
@@ -159,6 +169,13 @@ pub(crate) fn c08_case(rep: &mut Report, seed: u64, idx: u64, tier: &str) {
                         loop {
                             let k = sz[i % sz.len()];
                             i += 1;
+                            if k == 0 {
+                                match rd.read(&mut buf[..0]) {
+                                    Ok(0) => continue,
+                                    Err(e) if e.kind() == ErrorKind::Interrupted => continue,
+                                    other => return Err(format!("zero-length read returned {other:?} at offset {}", out.len())),
+                                }
+                            }
                             match rd.read(&mut buf[..k]) {
                                 Ok(0) => {
                                     zeros += 1;
@@ -239,15 +256,15 @@ pub fn run_c08(args: &Args, tier: &str, seed: u64) -> Report {
 
 // =================================================================== C15 (allocation measure; instruction counts are driven by the python side via `cost`)
 
-pub fn cost_parse(fam: &str, size: usize, use_async: bool) -> (u64, u64, usize, String) {
+pub fn cost_parse(fam: &str, size: usize, use_async: bool, chunk: usize) -> (u64, u64, usize, String) {
     let data = Arc::new(gen::family(fam, size));
     let n = data.len();
     let before = vkit::alloc::snap();
     let out = if use_async {
-        let (o, _, _) = async_parse_noinspect(&data);
+        let (o, _, _) = async_parse_noinspect(&data, if chunk == 0 { 4096 } else { chunk });
         o
     } else {
-        let (src, _) = Scripted::new(data.clone(), Plan::full());
+        let (src, _) = Scripted::new(data.clone(), if chunk == 0 { Plan::full() } else { Plan::chunk(chunk) });
         let r = ipp::parser::IppParser::new(ipp::reader::IppReader::new(src)).parse();
         let s = match &r {
             Ok(_) => "ok".to_string(),
@@ -260,8 +277,8 @@ pub fn cost_parse(fam: &str, size: usize, use_async: bool) -> (u64, u64, usize, 
     (after.bytes - before.bytes, after.calls - before.calls, n, out)
 }
 
-fn async_parse_noinspect(data: &Arc<Vec<u8>>) -> (String, (), ()) {
-    let (src, shared) = Scripted::new(data.clone(), Plan::chunk(4096));
+fn async_parse_noinspect(data: &Arc<Vec<u8>>, chunk: usize) -> (String, (), ()) {
+    let (src, shared) = Scripted::new(data.clone(), Plan::chunk(chunk));
     let sh = [shared];
     let (e, _) = src::run(ipp::parser::AsyncIppParser::new(ipp::reader::AsyncIppReader::new(src)).parse(), &sh, MAX_IDLE_POLLS);
     let s = match e {
@@ -282,7 +299,7 @@ fn async_parse_noinspect(data: &Arc<Vec<u8>>) -> (String, (), ()) {
 pub fn run_cost(args: &Args) {
     let fam = args.str("--family", "nest");
     let size = args.u64("--size", 4096) as usize;
-    let (bytes, calls, n, out) = cost_parse(&fam, size, args.has("--async"));
+    let (bytes, calls, n, out) = cost_parse(&fam, size, args.has("--async"), args.u64("--chunk", 0) as usize);
     println!("COST family={fam} size={size} input_bytes={n} alloc_bytes={bytes} alloc_calls={calls} outcome={out}");
 }
 
@@ -293,9 +310,19 @@ pub fn run_c15(args: &Args, tier: &str, seed: u64) -> Report {
     let mut rep = Report::new("C15", tier, seed);
     let only = args.get("--only").map(|s| s.to_string());
     // single-threaded on purpose: the counting allocator is process-global
+    // delivery: 0 = whole reads (blocking) / 4 KiB chunks (async); 13 = short reads, for the families made of long elements
+    let mut jobs: Vec<(&str, bool, usize)> = vec![];
     for fam in gen::FAMILIES {
         for use_async in [false, true] {
-            let key = format!("{fam}/{}", if use_async { "async" } else { "blocking" });
+            jobs.push((fam, use_async, 0));
+            if ["value-len", "name-len", "attr-count", "nest"].contains(&fam) {
+                jobs.push((fam, use_async, 13));
+            }
+        }
+    }
+    {
+        for (fam, use_async, chunk) in jobs {
+            let key = format!("{fam}/{}{}", if use_async { "async" } else { "blocking" }, if chunk > 0 { format!("/reads-of-{chunk}") } else { String::new() });
             if only.as_ref().map(|o| o != &key).unwrap_or(false) {
                 continue;
             }
@@ -304,7 +331,7 @@ pub fn run_c15(args: &Args, tier: &str, seed: u64) -> Report {
             let mut stopped = false;
             while size <= max && !stopped {
                 rep.eval();
-                let (bytes, calls, n, out) = cost_parse(fam, size, use_async);
+                let (bytes, calls, n, out) = cost_parse(fam, size, use_async, chunk);
                 rep.seen("outcomes", format!("{key}: {out}"));
                 series.push((n, bytes, calls));
                 rep.nontrivial(hash64(format!("{key}/{size}").as_bytes()));
@@ -348,7 +375,7 @@ pub fn run_c15(args: &Args, tier: &str, seed: u64) -> Report {
             rep.max("max_input_bytes", series.last().map(|s| s.0 as i64).unwrap_or(0));
         }
     }
-    rep.rule = format!("Doubling families (nesting depth with/without member names and with multi-valued members, set width, set of collections, attribute count, group count, member count, value length, name length; malformed: unterminated collections, end-collection flood, member-name flood, additional values without attribute), sizes 2 KiB .. {} KiB, both parsers. Step measures, no wall clock: (A) bytes and calls allocated during parse (counting global allocator, this step) and (I) instruction counts under cachegrind (separate layer). Oracle: incremental ratio (c(4n)-c(2n))/(c(2n)-c(n)) <= {RATIO_LIMIT} and allocated bytes <= 256 KiB + 1024 x n; a series stops at its first violating doubling. evaluations = measured parses.", max >> 10);
+    rep.rule = format!("Delivery: whole reads (blocking) / 4 KiB chunks (async), and 13-byte short reads for the long-element families. Doubling families (nesting depth with/without member names and with multi-valued members, set width, set of collections, attribute count, group count, member count, value length, name length; malformed: unterminated collections, end-collection flood, member-name flood, additional values without attribute), sizes 2 KiB .. {} KiB, both parsers. Step measures, no wall clock: (A) bytes and calls allocated during parse (counting global allocator, this step) and (I) instruction counts under cachegrind (separate layer). Oracle: incremental ratio (c(4n)-c(2n))/(c(2n)-c(n)) <= {RATIO_LIMIT} and allocated bytes <= 256 KiB + 1024 x n; a series stops at its first violating doubling. evaluations = measured parses.", max >> 10);
     rep
 }
 
